@@ -163,6 +163,33 @@ def run(db, tier):
     rep.check(not pre, "R-SIZE", "read_byte_vec|no-preallocation", rbv.loc, "read_byte_vec reads through take(len) without allocating len up front",
               "read_byte_vec allocates the requested (file-controlled) length before reading")
 
+    # ---- R-IMG-SIZE: pixel transcoding (which asserts len % bpp == 0 and indexes by w*h) only runs on data whose
+    #      length was compared for *equality* with width*height*bpp, or for divisibility by bpp
+    rep.rule("R-IMG-SIZE", "texture bytes are transcoded only after their length was checked against the pixel format")
+    n_tc = 0
+    for g in db.fns.values():
+        if g.gen:
+            continue
+        for bi, t in g.calls():
+            if not t.get("f", "").endswith("ColorFormat::transcode_to_argb_8888"):
+                continue
+            n_tc += 1
+            dg = flow.Defs(g)
+            ok = False
+            why = "no comparison of the data length guards the transcode"
+            for c in flow.guards_before(g, bi, dg):
+                srcs_a, srcs_b = c["a"], c["b"]
+                len_side = flow.has_call_source(srcs_a | srcs_b, "::len")
+                if not len_side:
+                    continue
+                if c["op"] in ("Ne", "Eq"):
+                    ok = True
+                else:
+                    why = "the data length is only compared with `%s` (line %d): data of another length still reaches the pixel decoder, which asserts len %% bytes_per_pixel == 0" % (c["op"], c["ln"])
+            rep.check(ok, "R-IMG-SIZE", "%s|transcode_to_argb_8888" % g.id, "%s:%d" % (g.file, t["ln"]),
+                      "length checked by equality / divisibility before transcoding", why)
+    rep.floor("transcode_to_argb_8888 call sites", n_tc, 2)
+
     # ---- R-JUMP
     g = db.fn("llir::raise::early::generate_offset_labels")
     bs = [t for _, t in g.calls() if "binary_search" in t.get("f", "")]
